@@ -40,6 +40,10 @@ def run(tier):
         st = structs(t["structs"], lib.seed())
         rnd = bo.random_histories(t["rnd"], t["rlen"], lib.seed(), st)
         cases = gen + rnd
+        # every second history runs after the process has solved an unrelated sibling object (same pairs, other
+        # sequence and length): answers must not depend on what happened to other objects before
+        for k, c in enumerate(cases):
+            c["prelude"] = (k % 2 == 1)
         rec = lib.pmap(bo.record_history, cases)
         res = lib.trace_validate("Trace_BpSeqObject", "Trace_BpSeqObject.cfg", rec, sc)
         rep.add_trace(res, {c["id"]: c for c in rec}, "C12")
@@ -72,7 +76,7 @@ def replay(doc):
         return run("quick")
     rep = lib.Report(PID, "quick", "model_checking", evidence=False)
     with lib.Scratch("c12r") as sc:
-        rec = bo.record_history({k: case[k] for k in ("id", "n", "pairs", "seq", "calls")})
+        rec = bo.record_history({k: case[k] for k in ("id", "n", "pairs", "seq", "calls", "prelude") if k in case})
         res = lib.trace_validate("Trace_BpSeqObject", "Trace_BpSeqObject.cfg", [rec], sc, chunks=1)
         rep.add_trace(res, {rec["id"]: rec}, "C12")
     return rep.finish()
